@@ -375,10 +375,10 @@ def r04_3(prog, rep):
 
 def run(prog, rep, tier, snap):
     rep.rule("R04.1", "arming discipline of the reschedule callback and its unwinder (peek after strict unwind, no pop before return)", 8)
-    ctx = r04_1(prog, rep)
+    ctx = rep.call(r04_1, prog, rep)
     rep.rule("R04.2", "retirement reachability: end-of-stream branches, retire callback, child callback, cancel, registration", 8)
     if ctx:
-        r04_2(prog, rep, ctx)
+        rep.call(r04_2, prog, rep, ctx)
     rep.rule("R04.3", "descriptor hygiene of the daemon's spawn path", 3)
-    r04_3(prog, rep)
+    rep.call(r04_3, prog, rep)
 READY = True
